@@ -478,7 +478,7 @@ func backEdgeHeaders(fn *ssa.Function) []*ssa.BasicBlock {
 	var out []*ssa.BasicBlock
 	for _, b := range fn.Blocks {
 		for _, s := range b.Succs {
-			if s.Dominates(b) && !seen[s] {
+			if ir.Dominates(s, b) && !seen[s] {
 				seen[s] = true
 				out = append(out, s)
 			}
